@@ -362,6 +362,15 @@ retry:
             auto in_range = [&full_key, &tuple_list, &vp, &node_version_vec,
                              &v_at_fb, &node_version_ptr, &tuple_pushed_num,
                              max_size]() {
+                /**
+                 * After a concurrent node removal the key range of this node may have grown to
+                 * the left: it can hold keys at or below the last key this scan already returned
+                 * (returned from the removed node, or inserted since). Keep the result ascending.
+                 */
+                if (!tuple_list.empty() &&
+                    full_key.compare(std::get<0>(tuple_list.back())) <= 0) {
+                    return status::OK;
+                }
                 tuple_list.emplace_back(std::make_tuple(
                         full_key, static_cast<ValueType*>(value::get_body(vp)),
                         value::get_len(vp)));
